@@ -46,6 +46,14 @@ func (c *Ctx) ensureEffects() {
 				if root == "fresh" {
 					return
 				}
+				if _, isPhi := x.Addr.(*ssa.Phi); isPhi {
+					if keys := phiFieldKeys(x.Addr); len(keys) > 0 {
+						for _, k := range keys {
+							ef.Writes[Effect{root, k}] = true
+						}
+						return
+					}
+				}
 				ef.Writes[Effect{root, addrField(x.Addr)}] = true
 			case *ssa.MapUpdate:
 				root := c.rootClass(fn, x.Map)
